@@ -21,7 +21,7 @@ def _jobs(props, n, tier, seed):
     for engine, profile, _, _ in checks.PLANS[prop]:
       k = n
       if profile in ("ec_big", "ec_default", "rsa_lhw", "rsa_huge",
-                     "rsa_large", "ecdsa_large", "ec_allcurves",
+                     "rsa_large", "ecdsa_large", "ecdsa_huge", "ec_allcurves",
                      "ecdsa_allcurves"):
         k = min(n, 1) if profile != "ec_default" else 0
       elif profile in ("ec", "ecdsa", "e2e"):
